@@ -37,9 +37,9 @@ pub fn grid_points() -> Vec<(f64, f64)> {
 
 /// uniform sphere points shifted by -4..+4 turns
 pub fn sphere_points(rng: &mut Rng, n: usize) -> Vec<(f64, f64)> {
-  // mostly within +-4 turns; one point in 16 up to +-30 turns (|lon| < 190 rad: beyond 64 pi = 201 rad the range reduction of the crate
-  // saturates, which is outside "a few turns")
-  (0..n).map(|_| { let (lon, lat) = rng.sphere(); let k = if rng.below(16) == 0 { rng.below(61) as f64 - 30.0 } else { rng.below(9) as f64 - 4.0 }; (lon + k * TWO_PI, lat) }).collect()
+  // mostly within +-4 turns; one point in 16 up to +-30 turns, one in 64 up to +-10^6 turns (the sum is rounded: a nearby position,
+  // judged as given with a tolerance that follows the ulp of the longitude)
+  (0..n).map(|_| { let (lon, lat) = rng.sphere(); let k = match rng.below(64) { 0 => (rng.log_uniform(30.0, 1e6) * if rng.coin() { 1.0 } else { -1.0 }).round(), 1..=4 => rng.below(61) as f64 - 30.0, _ => rng.below(9) as f64 - 4.0 }; (lon + k * TWO_PI, lat) }).collect()
 }
 
 /// points on cell borders (vertices and random edge points) of random cells at random depths, x {-1,0,1 ulp}^2
@@ -202,5 +202,5 @@ pub fn bad_cell_numbers(rng: &mut Rng, depth: u8) -> Vec<u64> {
 /// the sum lon + 2k.pi is rounded, i.e. this is a nearby position, judged as given)
 pub fn any_turn(rng: &mut Rng, lon: f64) -> f64 {
   let l = lon.rem_euclid(TWO_PI);
-  if rng.below(8) == 0 { let k = *rng.pick(&[-3.0, -2.0, -1.0, 1.0, 2.0]); l + k * TWO_PI } else { l }
+  if rng.below(8) == 0 { let k = *rng.pick(&[-3.0, -2.0, -1.0, 1.0, 2.0, 33.0, -40.0, 1000.0]); l + k * TWO_PI } else { l }
 }
